@@ -67,6 +67,24 @@ class EntMeta(object):
         self.auto_pk = len(self.pk_attrs) == 1 and self.pk_attrs[0].auto
         self.composite_keys = [tuple(ck) for ck in opts.get('composite_keys', ())]
         self.base = opts.get('base')
+        self.own_attrs = list(self.attrs)
+        self.own_composite_keys = list(self.composite_keys)
+
+    def inherit(self, base):
+        """single-table inheritance: the subclass has the attributes and keys of its base as well (the AttrMeta
+        objects are shared: an inherited relationship attribute belongs to the base entity)"""
+        self.attrs = list(base.attrs) + self.own_attrs
+        self.by_name = dict((a.name, a) for a in self.attrs)
+        self.pk_attrs = list(base.pk_attrs)
+        self.auto_pk = base.auto_pk
+        self.composite_keys = list(base.composite_keys) + self.own_composite_keys
+
+    def key_owner(self, key):
+        """name of the entity whose objects a key ranges over: the one that declares it"""
+        own = set(a.name for a in self.own_attrs)
+        if self.base and not any(n in own for n in key):
+            return self.base
+        return self.name
 
     def scalars(self):
         return [a for a in self.attrs if not a.is_rel]
@@ -87,6 +105,9 @@ class Schema(object):
         self.spec = spec
         self.entities = [EntMeta(n, attrs, opts) for (n, attrs, opts) in spec]
         self.by_name = dict((e.name, e) for e in self.entities)
+        for e in self.entities:
+            if e.base:
+                e.inherit(self.by_name[e.base])
         for e in self.entities:
             for a in e.attrs:
                 if a.is_rel:
@@ -115,9 +136,9 @@ class Schema(object):
         knobs = knobs or {}
         lines = []
         for e in self.entities:
-            lines.append('class %s(db.Entity):' % e.name)
-            composite_pk = len(e.pk_attrs) > 1
-            for a in e.attrs:
+            lines.append('class %s(%s):' % (e.name, e.base or 'db.Entity'))
+            composite_pk = len(e.pk_attrs) > 1 and not e.base
+            for a in e.own_attrs:
                 args = []
                 kw = []
                 if a.is_rel:
@@ -157,8 +178,9 @@ class Schema(object):
                 lines.append('    %s = %s(%s)' % (a.name, cls, ', '.join(args + kw)))
             if composite_pk:
                 lines.append('    PrimaryKey(%s)' % ', '.join(a.name for a in e.pk_attrs))
-            for ck in e.composite_keys:
-                lines.append('    composite_key(%s)' % ', '.join(ck))
+            own = set(a.name for a in e.own_attrs)
+            for ck in e.own_composite_keys:
+                lines.append('    composite_key(%s)' % ', '.join(n if n in own else '%s.%s' % (e.base, n) for n in ck))
             hooks = knobs.get('hooks', {}).get(e.name)
             if hooks:
                 lines.append(hooks)
@@ -258,8 +280,9 @@ class View(object):
         if self.symmetric(a):
             ps.discard((y, x))
 
-    def live(self, ent=None):
-        return [o for o in self.objs.values() if not o.deleted and (ent is None or o.ent == ent)]
+    def live(self, ent=None, exact=False):
+        return [o for o in self.objs.values() if not o.deleted and (ent is None or o.ent == ent or
+                                                                   (not exact and self._is_sub(o.ent, ent)))]
 
     # ---- Pony's algorithms on the model (appendix A2, A4, A5, A6)
     def set_to_one(self, x, a, new, depth=0):
@@ -399,7 +422,7 @@ class View(object):
             od = self.objs[d]
             for e in self.schema.entities:
                 for a in e.to_ones():
-                    if a.rel != od.ent or not has_column(a):
+                    if not (a.rel == od.ent or self._is_sub(od.ent, a.rel)) or not has_column(a):
                         continue
                     for s in self.partners(a.reverse, d):
                         if s in doomed:
@@ -461,7 +484,7 @@ class View(object):
         m2m = {}
         for e in self.schema.entities:
             rows = {}
-            for o in self.live(e.name):
+            for o in self.live(e.name, exact=True):
                 row = dict(o.vals)
                 for a in e.to_ones():
                     if self._has_column(a):
